@@ -29,6 +29,21 @@ func CalleeName(c ssa.CallInstruction) string {
 	if b, ok := cc.Value.(*ssa.Builtin); ok {
 		return "builtin." + b.Name()
 	}
+	// a method value or function literal converted to a named function type and called
+	// (`redact := redactionFunc(v.RedactEventJSON); redact(x)`)
+	v := cc.Value
+	for {
+		if ct, ok := v.(*ssa.ChangeType); ok {
+			v = ct.X
+			continue
+		}
+		break
+	}
+	if mc, ok := v.(*ssa.MakeClosure); ok {
+		if f, isF := mc.Fn.(*ssa.Function); isF {
+			return strings.TrimSuffix(FuncName(f), "$bound")
+		}
+	}
 	return ""
 }
 
